@@ -14,7 +14,8 @@
 //! anomalies: double drop, drop of an unknown id, the container dropping an element it had already
 //! yielded, and any observation of an element that is not `Live`.
 //!
-//! The harness never uses `Tracked`'s own `Debug/PartialEq/Hash/Clone`; it reads `.id` / `.val`.
+//! The harness never uses `Tracked`'s own `Debug/PartialEq/Ord/Hash/Clone` itself; it reads `.id` / `.val`
+//! (std consumers such as `Iterator::max` / `Iterator::eq` do use them, on elements they own).
 
 use std::cell::RefCell;
 use std::fmt;
@@ -34,6 +35,8 @@ pub enum Obs {
     Eq,
     Hash,
     Clone,
+    /// `Ord` / `PartialOrd` (used by `Iterator::{max, min, cmp, lt, is_sorted, ..}` on elements in flight)
+    Cmp,
 }
 
 /// What the harness is currently asking vek to do (set around observer calls on an `IntoIter`).
@@ -194,6 +197,20 @@ impl PartialEq for Tracked {
     }
 }
 impl Eq for Tracked {}
+
+/// Ordering by `val`, consistent with `PartialEq`; every comparison is an observation of both operands.
+impl Ord for Tracked {
+    fn cmp(&self, other: &Tracked) -> std::cmp::Ordering {
+        observe(self, Obs::Cmp);
+        observe(other, Obs::Cmp);
+        self.val.cmp(&other.val)
+    }
+}
+impl PartialOrd for Tracked {
+    fn partial_cmp(&self, other: &Tracked) -> Option<std::cmp::Ordering> {
+        Some(self.cmp(other))
+    }
+}
 
 impl Hash for Tracked {
     fn hash<H: Hasher>(&self, h: &mut H) {
